@@ -276,6 +276,16 @@ func (c *Conn) Written() []byte {
 	return append([]byte(nil), c.recOut...)
 }
 
+// WrittenFrom returns a copy of the bytes accepted by Write from offset off on.
+func (c *Conn) WrittenFrom(off int) []byte {
+	c.mu.Lock()
+	defer c.mu.Unlock()
+	if off > len(c.recOut) {
+		off = len(c.recOut)
+	}
+	return append([]byte(nil), c.recOut[off:]...)
+}
+
 // WrittenLen returns the number of bytes accepted by Write so far.
 func (c *Conn) WrittenLen() int {
 	c.mu.Lock()
